@@ -139,9 +139,13 @@ func (b *BFT) AddDSE(e *DoubleSignEvidences, ev *DoubleSignEvidence) (err lib.Er
 	if err = ev.CheckBasic(); err != nil {
 		return
 	}
-	// nullify the block and results as they are unnecessary bloat in the message for this purpose
-	ev.VoteA.Block, ev.VoteA.Results = nil, nil
-	ev.VoteB.Block, ev.VoteB.Results = nil, nil
+	// omit the block and results as they are unnecessary bloat in the message for this purpose
+	// NOTE: work on copies - the certificates may be shared with stored proposals (e.g. the COMMIT
+	// message whose certificate is about to be committed), which must keep their block and results
+	stripped := func(qc *QC) *QC {
+		return &QC{Header: qc.Header, ResultsHash: qc.ResultsHash, BlockHash: qc.BlockHash, ProposerKey: qc.ProposerKey, Signature: qc.Signature}
+	}
+	ev = &DoubleSignEvidence{VoteA: stripped(ev.VoteA), VoteB: stripped(ev.VoteB)}
 	// process the Double Sign Evidence and save the double signers
 	badSigners, err := b.ProcessDSE(ev)
 	if err != nil {
